@@ -28,6 +28,9 @@ type c10Case struct {
 	// not say what "agrees" means against such a NULL, so only "no solution of the preceding
 	// pattern is removed or invented" is required of these cases.
 	Chained bool `json:"chained,omitempty"`
+	// BigLimit: the full query is run once more with LIMIT = the number of rows it returned,
+	// which cannot change the answer
+	BigLimit bool `json:"big_limit,omitempty"`
 }
 
 func (c c10Case) queries() (left, full bq.Query) {
@@ -182,6 +185,7 @@ func genC10(t *rapid.T) c10Case {
 		c.Mandatory, c.Optional = cs[:len(c.Mandatory)], cs[len(c.Mandatory):]
 		c.Excluded = append(c.Excluded, "KF-C03-BINDINGLESS-CLAUSE")
 	}
+	c.BigLimit = gen.Maybe(t, 15, "big-limit")
 	if gen.Maybe(t, 15, "hasglobal") || (ground && gen.Maybe(t, 60, "hasglobal-ground")) {
 		c.Global = g.GenGlobal()
 	}
@@ -429,6 +433,23 @@ func checkC10(ctx *pbt.Ctx, c c10Case) error {
 		if !same {
 			return fmt.Errorf("%q is not the left outer join of its left rows with the matches of the OPTIONAL clauses:\n  %s\n data: %s", fq.String(), diffMultiset(want, got), describeData(c.Data))
 		}
+	}
+	if c.BigLimit && len(R) > 0 {
+		lq2 := fq
+		l := fmt.Sprintf("\"%d\"^^type:int64", len(R))
+		lq2.Limit = &l
+		out2, err := runBQL(BQLReq{Graphs: datasetGraphs(c.Data), Runs: []RunSpec{{Text: lq2.String()}}})
+		if err != nil {
+			return err
+		}
+		if out2.Crashed || out2.Hung || out2.Resp.Results[0].Stage != "ok" {
+			return fmt.Errorf("%q fails although the same query without LIMIT returns %d rows", lq2.String(), len(R))
+		}
+		got2 := envKeys(rowEnvs(out2.Resp.Results[0]), allCols)
+		if !sameMultiset(got, got2) {
+			return fmt.Errorf("%q (LIMIT = the number of rows of the unlimited result) returns different rows:\n  %s", lq2.String(), diffMultiset(got, got2))
+		}
+		ctx.Label("limit=result-size")
 	}
 	if len(L) >= 2 && partial > 0 {
 		ctx.Nontrivial()
